@@ -1,6 +1,6 @@
     use crate::master::association::verif_kani_c17_autotasks as at;
     use crate::master::association::verif_kani_c17_next_order as no;
-    use crate::app::{Iin1, Iin2};
+    use crate::app::{ControlField, Iin1, Iin2, ResponseFunction};
 
     pub(crate) static mut UNSOL_NOTIFY: (usize, bool, u8) = (0, false, 0);
     pub(crate) struct VInfo;
@@ -164,4 +164,24 @@
         }
         kani::cover!(keep && had);
         kani::cover!(!keep && had);
+    }
+
+    // @harness ids=C17,C01 tier=quick kind=proof units=master::association::Association::reset timeout=900 note="a new connection (Association::reset, empty request queue): the start-up sequence is re-armed (disable unsolicited, integrity poll, enable unsolicited pending), the unsolicited gate is closed again (integrity no longer counts as done) and the memory of the last unsolicited fragment is dropped"
+    #[kani::proof]
+    #[kani::unwind(8)]
+    fn vk_c17_association_reset() {
+        let mut sh = Shell::new(at::any_task_states(), any_config(), kani::any(), any_event_classes());
+        unsafe {
+            core::ptr::addr_of_mut!((*sh.mem.as_mut_ptr()).request_queue).write(VecDeque::new());
+            core::ptr::addr_of_mut!((*sh.mem.as_mut_ptr()).last_unsol_frag).write(if kani::any() { Some(LastUnsolFragment { header: ResponseHeader::new(ControlField::from(kani::any()), ResponseFunction::UnsolicitedResponse, Iin::new(Iin1::new(kani::any()), Iin2::new(kani::any()))), hash: kani::any() }) } else { None });
+        }
+        let integrity_classes = sh.get().config.startup_integrity_classes.any();
+        sh.get().reset(RunError::Link(crate::link::error::LinkError::Stdio(std::io::ErrorKind::BrokenPipe)));
+        let a = sh.get();
+        let t = tags(&a.auto_tasks);
+        assert!(t == [1, 1, 1, 0, 0, 0]);
+        assert!(!a.startup_integrity_done);
+        assert!(a.is_integrity_complete() == !integrity_classes);
+        assert!(a.last_unsol_frag.is_none());
+        kani::cover!(integrity_classes);
     }
